@@ -143,9 +143,9 @@ static void decoy_run(void) {
     static const char msg[] = "DEC7:NUM3 2 V;:DEC:LIST (5,1:2);Q?;:DEC:NOPE;:SYST:ERR?\n";
     static const char want_log[] = "[7,3|20](5)(1:2)<2>"; /* "V" means 10 seconds in the decoy's own unit table (which has no name for plain seconds); NO_MORE after two entries */
 #if VH_HAS_INFO
-    static const char want_out[] = "15,\"m\"\"q\",#12ab;-113,\"Undefined header;:DEC:NOPE;\"\r\n"; /* the library reports the unit as written, separator included */
+    static const char want_out[] = "15,\"m\"\"q\",#12ab;-113,\"Undefined header;:DEC:NOPE;\"" SCPI_LINE_ENDING; /* the library reports the unit as written, separator included */
 #else
-    static const char want_out[] = "15,\"m\"\"q\",#12ab;-113,\"Undefined header\"\r\n";
+    static const char want_out[] = "15,\"m\"\"q\",#12ab;-113,\"Undefined header\"" SCPI_LINE_ENDING;
 #endif
     if (decoy_busy) return;
     decoy_busy = 1;
